@@ -94,6 +94,11 @@ pub fn run() -> Result<u64, String> {
         }
     }
     chk!(t[4] == Pt { x: Fp::ZERO, y: Fp::ONE.neg() }, "order-2 point is (0,-1)");
+    let td = ed::torsion_table_documented();
+    chk!(!td[1].dbl().dbl().is_identity() && td[1].mul8().is_identity(), "documented torsion generator has exact order 8");
+    for i in 0..8 {
+        chk!(t.contains(&td[i]), "documented torsion table inside the derived E[8]");
+    }
     chk!(t[2].y.is_zero() && t[6].y.is_zero(), "order-4 points have y = 0");
     for _ in 0..12 {
         let p = rand_point(&mut seed);
